@@ -471,7 +471,21 @@ func writeReplay(eng *Engine, dir, prop string, o *Obligation) (string, bool) {
 	}
 	rec["solver_outputs"] = outs
 	replayed := false
-	if o.Result.Status == "sat" {
+	if o.Result.Status != "sat" && o.Result.Status != "unsat" && o.queryFile != "" && (o.Kind == "post" || o.Kind == "bounds" || o.Kind == "nil" || o.Kind == "div" || o.Kind == "panic" || o.Kind == "pre-panic" || o.Kind == "conv") {
+		// no model: concretisation search over small random inputs
+		seed := int64(1)
+		if s := os.Getenv("VERIF_SEED"); s != "" {
+			if n, err := strconv.ParseInt(s, 10, 64); err == nil {
+				seed = n
+			}
+		}
+		if pins, ok := concretize(o, seed, 24, filepath.Join(dir, "conc")); ok {
+			o.pins = pins
+			rec["concretised"] = true
+			rec["status"] = "sat (after fixing the inputs to concrete values)"
+		}
+	}
+	if o.Result.Status == "sat" || len(o.pins) > 0 {
 		if rp := safeReplay(eng, o, dir, name); rp != nil {
 			rec["replay"] = rp
 			if ok, _ := rp["confirmed"].(bool); ok {
@@ -513,7 +527,7 @@ func boundedSearch(eng *Engine, fn *ssa.Function, con *Contract, work, replayDir
 	}
 	eng.discharge(cand, filepath.Join(work, "bounded"), 6, true, 14)
 	for _, o := range cand {
-		if o.Result == nil || o.Result.Status != "sat" {
+		if o.Result == nil || o.Result.Status == "unsat" {
 			continue
 		}
 		path, ok := writeReplay(eng, replayDir, prop, o)
